@@ -74,12 +74,30 @@ PROPS["C14"] = {
     "assumptions": ["a net.Conn returns data and errors in separate Read calls", "after a refused (too large) frame the stream is abandoned, as all users of the framing do"],
 }
 
+PROPS["C01"] = {
+    "parts": [part("TestVerifC01", q=8, t=16, tq=900)],
+    "level": "exploration",
+    "engine": "E1 simnet",
+    "technique": "deterministic two-agent simulation of the real agents over an in-memory switch with a harness-driven scheduler (parked check ticker, per-datagram deliver/drop/duplicate), convergence/mirror oracle computed from the harness topology, monitors after every step",
+    "level_text": "Seeded exploration of topologies (1-4 host addresses per side, IPv4/IPv6, static NAT with srflx-like signalling or peer-reflexive discovery, one-way and full partitions) x "
+                  "message schedules (reorder, drop, duplicate, trickle order, tick interleaving within the retry budget) followed by a fair loss-free suffix; verdict from logical steps, not time.",
+    "level_note": "Host candidates over a fake transport.Net (no real sockets, no srflx/relay gathering, UDP only); schedules are sampled; runs slower than 3 s are not judged (4 s transaction expiry is wall-clock).",
+    "rule": "case = (topology, signalling plan, scheduler choices) from PRNG(VERIF_SEED, shard, index); non-trivial = the run executed; distinct_nontrivial counts distinct "
+            "(|A|,|B|,#NAT,#cuts,v6,#bidirectional pairs,budget,chaos-length bucket) classes",
+    "assumptions": ["static 1:1 NAT (full cone)", "acceptance waits and liveness timeouts set to 0 so that nothing depends on the wall clock"],
+}
+
+PROPS["C03"] = dict(PROPS["C01"])
+PROPS["C03"]["parts"] = [part("TestVerifC03", q=8, t=16, tq=900)]
+
 ENGINES = [
     {"name": "E7 refmodel", "path": "harness/ice/vfc16.go, vfc17.go, vfc19.go", "serves_properties": ["C16", "C17", "C19"],
      "kind_free_text": "seeded/exhaustive generators + independent reference implementations evaluated in-process on the real functions"},
 ]
 ENGINES.append({"name": "E6 tcpmon", "path": "harness/ice/vfc14.go, vfc15.go", "serves_properties": ["C14", "C15"],
                 "kind_free_text": "framing functions over a re-chunking net.Conn; TCPMuxDefault over real loopback TCP with well-behaved and hostile clients"})
+ENGINES.append({"name": "E1 simnet", "path": "harness/ice/vfsim.go, vfsession.go, vfc01.go ...", "serves_properties": ["C01", "C02", "C03", "C04", "C05", "C06", "C07", "C20"],
+                "kind_free_text": "two real agents (or agent + scripted authenticated peer) over an in-memory datagram switch; the harness owns the check ticker (hook H1) and every datagram; oracles after every step"})
 
 # properties without a check yet (kept current by hand)
 NOT_YET = {}
